@@ -147,10 +147,11 @@ def _find_in_dirs_and_read(import_dirs):
                     return f.read(), None
             except IOError as e:
                 errors.append(str(e))
-            except UnicodeDecodeError as e:
-                # A file that exists but is not valid text is reported the same
-                # way as a file that cannot be read.
-                errors.append("{}: {}".format(full_name, e))
+            except ValueError as e:
+                # A file that exists but is not valid text (UnicodeDecodeError), or
+                # a name that cannot be a file name at all (embedded NUL byte), is
+                # reported the same way as a file that cannot be read.
+                errors.append("{}: {}".format(repr(full_name), e))
         return None, errors + ["import path " + ":".join(import_dirs)]
 
     return _find_and_read
